@@ -382,6 +382,55 @@ def judgeRows (st : St) (model' : Store) (keys : List (String × Int)) (out : St
   let seen' := ps.foldl (fun s (k, new) => sset s k new) st.seen
   (⟨model', seen'⟩, m, v)
 
+def kv' (key : String) (s : String) : Option String :=
+  if s.startsWith (key ++ "=") then some ((s.drop (key.length + 1)).toString) else none
+
+/-! ### concurrent op: linearizable monotonicity of the trace -/
+
+inductive CEv where
+  | up (ack : Nat) (res : String) (ce le : Nat)
+  | adv (ack : Nat) (res : String) (rs : Nat)
+  | rd (start : Nat) (row : Option Meta)
+
+def cev? (ty : Int) (s : String) : Option CEv :=
+  match s.splitOn ":" with
+  | ["U", ack, res, ce, le] =>
+    match ack.toNat?, u64? ce, u64? le with
+    | some a, some ce, some le => some (.up a res ce le)
+    | _, _, _ => none
+  | ["A", ack, res, rs] =>
+    match ack.toNat?, u64? rs with
+    | some a, some rs => some (.adv a res rs)
+    | _, _ => none
+  | ["R", start, row] =>
+    match start.toNat?, row? ty row with
+    | some t, some r => some (.rd t r)
+    | _, _ => none
+  | _ => none
+
+/-- every read that STARTED after a write was ACKNOWLEDGED must not be behind that write:
+    epochs at least those of an applied upsert, retention at least that of an accepted advance -/
+def judgeTrace (evs : List CEv) : String :=
+  firstBad (evs.map (fun e =>
+    match e with
+    | .rd t row =>
+      firstBad (evs.map (fun w =>
+        match w with
+        | .up ack res ce le =>
+          if res == "applied" ∧ ack < t then
+            match row with
+            | none => "viol:conc-row-vanished-after-acknowledged-write"
+            | some m => if m.chEpoch < ce ∨ (m.chEpoch = ce ∧ m.leEpoch < le) then "viol:conc-acknowledged-upsert-lost" else "ok"
+          else "ok"
+        | .adv ack res rs =>
+          if res == "ok" ∧ ack < t then
+            match row with
+            | none => "viol:conc-row-vanished-after-acknowledged-write"
+            | some m => if m.retSeq < rs then "viol:conc-acknowledged-retention-lost" else "ok"
+          else "ok"
+        | _ => "ok"))
+    | _ => "ok"))
+
 def c15StepW (st : St) (op impl : String) : St × String × String :=
   let bad := (st, "bad-op", "ok")
   match fields op with
@@ -417,6 +466,30 @@ def c15StepW (st : St) (op impl : String) : St × String × String :=
         if out == "other" then (⟨model', st.seen⟩, m, "viol:unexpected-result:" ++ r)
         else judgeRows st model' keys out delKeys rows m
       | _ => (⟨model', st.seen⟩, m, "viol:unparseable-output")
+  | ["conc", id, ty, n] =>
+    match i64? ty, n.toNat? with
+    | some tyI, some n =>
+      if n > 16 ∨ idLen id = 0 then bad else
+      let k := keyOf id ty
+      match fields impl with
+      | [fpre, fpost, fe] =>
+        match (kv' "pre" fpre).bind (row? tyI), (kv' "post" fpost).bind (row? tyI), kv' "E" fe with
+        | some pre, some post, some es =>
+          let evs? := if es == "-" then some [] else (es.splitOn ";").mapM (cev? tyI)
+          match evs? with
+          | none => (st, "-", "viol:unparseable-output")
+          | some evs =>
+            let v1 := if pre ≠ sget st.seen k then "viol:read-differs-from-last-write" else "ok"
+            let v2 := match pre, post with
+              | some a, some b => judgeFwd a b
+              | some _, none => "viol:row-vanished"
+              | none, _ => "ok"
+            let v := firstBad [v1, v2, judgeTrace evs]
+            -- the schedule decides the outcome: model and judge state resynchronise on the final row
+            (⟨sset st.model k post, sset st.seen k post⟩, "-", v)
+        | _, _, _ => (st, "-", "viol:unparseable-output")
+      | _ => (st, "-", "viol:unparseable-output")
+    | _, _ => bad
   | _ => c15Step st op impl
 
 def main : IO Unit := Drv.main { init := ⟨[], []⟩, step := c15StepW }
